@@ -99,22 +99,28 @@ Definition choose_with (cdf : Z -> Q -> Z -> Q) (hb w : Z) (p : Q) : Z :=
       if Qlt_bool (inject_Z n * p) 20 then scan (Z.to_nat (n + 1)) isMatch 0 w
       else search n isMatch.
 
-(* None = the Go function panics: with 0 < hash < max and n >= 1 every regime
-   evaluates CDF(h) for some 0 <= h < n first, and cephes.Incbet panics there
-   when p is outside [0,1] (p = committee/total > 1 when the committee size
-   exceeds the total stake). *)
+(* committee/total above 1 is clamped ("if p > 1 { p = 1 }" at the top of
+   choose, commit 839997b): every unit of stake is selected.  The result is
+   kept as an option so that the unrepaired function below has the same type;
+   it is always [Some]. *)
+Definition clamp_p (p : Q) : Q := if Qlt_bool 1 p then 1%Q else p.
+
 Definition choose (hb w : Z) (p : Q) : option Z :=
+  Some (choose_with binom_cdf hb w (clamp_p p)).
+
+(* the function before the repair.  None = the Go function panicked: with
+   0 < hash < max and n >= 1 every regime evaluates CDF(h) for some 0 <= h < n
+   first, and cephes.Incbet panics there when p is outside [0,1]
+   (p = committee/total > 1 when the committee size exceeds the total stake).
+   Kept for the record of the finding and so that an unrepaired tree can still
+   be compared. *)
+Definition choose_unrepaired (hb w : Z) (p : Q) : option Z :=
   if negb (hb =? max_hash) && (1 <=? hb) && (1 <=? w) && bad_p p then None
   else Some (choose_with binom_cdf hb w p).
 
-(* the function after the repair proposed in fixes/C04_choose_panics_committee_exceeds_total.diff
-   ("if p > 1 { p = 1 }" at the top of choose): never panics *)
-Definition choose_repaired (hb w : Z) (p : Q) : option Z :=
-  Some (choose_with binom_cdf hb w (if Qlt_bool 1 p then 1%Q else p)).
-
 (* [repaired] is what the harness observed on the working tree *)
 Definition choose_gen (repaired : bool) : Z -> Z -> Q -> option Z :=
-  if repaired then choose_repaired else choose.
+  if repaired then choose else choose_unrepaired.
 
 (* ---- bytes --------------------------------------------------------------- *)
 (* big-endian, fixed width (binary.BigEndian.PutUint32 / Hash.Bytes) *)
@@ -254,7 +260,7 @@ Definition candidates (rep : bool) (hb w : Z) (p : Q) : list (option Z) :=
   match choose_gen rep hb w p with
   | None => [None]
   | Some js =>
-    let p := if rep && Qlt_bool 1 p then 1%Q else p in
+    let p := if rep then clamp_p p else p in
     let t := target_of hb in
     let F := binom_cdf w p in
     Some js
@@ -362,7 +368,7 @@ Fixpoint mismatches_from (rep : bool) (i : N) (l : list case) : list N :=
   | c :: r => if case_ok rep c then mismatches_from rep (i + 1)%N r
               else i :: mismatches_from rep (i + 1)%N r
   end.
-(* the code as it stands / after the proposed repair (the harness probes
-   choose with committee > total once and picks the matching one) *)
-Definition mismatches := mismatches_from false 0%N.
-Definition mismatches_repaired := mismatches_from true 0%N.
+(* the code as it stands (repaired) / a tree without the repair (the harness
+   probes choose with committee > total once and picks the matching one) *)
+Definition mismatches := mismatches_from true 0%N.
+Definition mismatches_unrepaired := mismatches_from false 0%N.
